@@ -8,6 +8,7 @@ package sniproxy
 import (
 	"bytes"
 	"fmt"
+	"io"
 	"runtime"
 	"time"
 )
@@ -204,7 +205,7 @@ func VerifDecode(name string, capBuf int, body []byte) (res VerifDecoded) {
 			res = VerifDecoded{Outcome: "panic", Detail: fmt.Sprint(r)}
 		}
 	}()
-	r := bytes.NewReader(body)
+	r := verifReader(body)
 	before := verifAllocNow()
 	dec := newDecoder(r)
 	m.decodeFrom(dec)
@@ -236,7 +237,7 @@ func VerifServerFrame(frame []byte) (outcome string, id uint64, typ uint8, vals 
 	}()
 	s := &endpointServer{options: &Options{}}
 	before := verifAllocNow()
-	x, err := s.startCall(bytes.NewReader(frame))
+	x, err := s.startCall(verifReader(frame))
 	alloc = verifAllocNow() - before
 	if err != nil {
 		return "decodeErr", 0, 0, nil, alloc
@@ -261,6 +262,22 @@ type VerifClientFrameResult struct {
 	CompletedErr string
 	Vals         []VerifVal
 	Hint         bool // shutdown was started
+	InPlace      bool // a read reply's bytes are in the buffer the caller supplied
+}
+
+// verifReadBuf is the buffer handed to the last read reply (as tunnel.Read does).
+var verifReadBuf []byte
+
+// VerifWrapReader, when set, wraps the reader that every Verif* entry point
+// hands to the code under test (to vary how the bytes and the EOF arrive).
+var VerifWrapReader func(io.Reader) io.Reader
+
+func verifReader(b []byte) io.Reader {
+	var r io.Reader = bytes.NewReader(b)
+	if VerifWrapReader != nil {
+		r = VerifWrapReader(r)
+	}
+	return r
 }
 
 func verifRespFor(code uint8, capBuf int) decoderFrom {
@@ -270,7 +287,8 @@ func verifRespFor(code uint8, capBuf int) decoderFrom {
 	case msgDial, msgDialSide, msgDialSide2:
 		return new(dialResponse)
 	case msgRead:
-		return &readResponse{bytes: make([]byte, capBuf)}
+		verifReadBuf = make([]byte, capBuf)
+		return &readResponse{bytes: verifReadBuf}
 	case msgWrite:
 		return new(writeResponse)
 	case msgClose:
@@ -317,7 +335,7 @@ func VerifClientFrame(pending map[uint64]uint8, capBuf int, frame []byte) (res V
 				res.Panic = fmt.Sprint(r)
 			}
 		}()
-		if err := tr.handleMessage(bytes.NewReader(frame)); err != nil {
+		if err := tr.handleMessage(verifReader(frame)); err != nil {
 			res.Err = err.Error()
 		}
 	}()
@@ -326,6 +344,10 @@ func VerifClientFrame(pending map[uint64]uint8, capBuf int, frame []byte) (res V
 	}
 	if res.Completed && res.CompletedErr == "" && got != nil && got.resp != nil {
 		res.Vals = verifGet(got.resp)
+		if rr, ok := got.resp.(*readResponse); ok {
+			buf := verifReadBuf
+			res.InPlace = len(rr.bytes) == 0 || (len(buf) > 0 && &rr.bytes[0] == &buf[0])
+		}
 	}
 	if !res.Fetched && res.Err == "" && res.Panic == "" && len(frame) >= 10 && frame[8] == msgShutdownHint {
 		deadline := time.Now().Add(2 * time.Second)
